@@ -69,6 +69,12 @@ def gen_export(r, dense_assign=False):
         if r.random() < 0.05:
             c["max_size"] = r.choice([2.5, -3, "4"])
         courses[str(cid)] = c
+    if len(courses) >= 2 and sum(int(k) for k in courses) % 4 == 1:
+        # (no random draw) a course closed for attendees: max_size explicitly 0, which is a limit and not "no limit given"
+        c0 = courses[min(courses, key=int)]
+        c0["max_size"] = 0
+        if c0.get("min_size"):
+            c0["min_size"] = 0
     e["courses"] = courses
     nr_ = r.randint(1, 10) if r.random() < 0.4 else r.randint(4, 12)
     rids = r.sample(range(1, 60), nr_)
